@@ -13,17 +13,20 @@ EXTENDS WriteSession, Json, IOUtils, TLCExt, SequencesExt
 Traces == JsonDeserialize(IOEnv.TRACE_FILE)
 Explain == IOEnv.EXPLAIN = "1"
 
-VARIABLES tid, l, seen      \* seen: [n, c, meta] list of the previous successful reopen (metadata must not change)
-tvars == <<vars, tid, l, seen>>
+VARIABLES tid, l, seen,     \* seen: [n, c, meta] list of the previous successful reopen (metadata must not change)
+          seenref,           \* the same as the independent reference reader saw it
+          nbase              \* number of members of a foreign base archive (0 otherwise)
+tvars == <<vars, tid, l, seen, seenref, nbase>>
 Ev == Traces[tid][l]
 
-TInit == Init /\ tid \in 1..Len(Traces) /\ l = 1 /\ seen = <<>>
+TInit == Init /\ tid \in 1..Len(Traces) /\ l = 1 /\ seen = <<>> /\ seenref = <<>> /\ nbase = 0
 IsEvent(name) == l <= Len(Traces[tid]) /\ Ev.e = name /\ l' = l + 1 /\ tid' = tid
-Silent == UNCHANGED <<tid, l, seen>>
+Silent == UNCHANGED <<tid, l, seen, seenref, nbase>>
 
-TBase == IsEvent("base") /\ Preload(Ev.members) /\ UNCHANGED seen
-TOpen == IsEvent("open") /\ Open /\ UNCHANGED seen
-TCall == IsEvent("call") /\ Begin(Ev.k, Ev.n, Ev.fault) /\ UNCHANGED seen
+(* a foreign base: the baseline is what each reader saw BEFORE any append (the two may disagree on kinds - that is C06) *)
+TBase == IsEvent("base") /\ Preload(Ev.members) /\ seen' = Ev.metas /\ seenref' = Ev.refmetas /\ nbase' = Len(Ev.members)
+TOpen == IsEvent("open") /\ Open /\ UNCHANGED <<seen, seenref, nbase>>
+TCall == IsEvent("call") /\ Begin(Ev.k, Ev.n, Ev.fault) /\ UNCHANGED <<seen, seenref, nbase>>
 
 (* the call has returned: compare what the real object shows with the specification state *)
 TRet == /\ IsEvent("ret") /\ pc = "idle" /\ st = "open"
@@ -33,9 +36,9 @@ TRet == /\ IsEvent("ret") /\ pc = "idle" /\ st = "open"
         /\ Ev.nsubs = Len(subs)                                \* substreamsinfo.digests
         /\ Ev.stale = 0                                        \* no earlier failed source was touched again
         /\ Ev.tries <= 1                                       \* the call's own source was opened/read at most once
-        /\ UNCHANGED <<vars, seen>>
+        /\ UNCHANGED <<vars, seen, seenref, nbase>>
 
-TClose == IsEvent("close") /\ Close /\ UNCHANGED seen
+TClose == IsEvent("close") /\ Close /\ UNCHANGED <<seen, seenref, nbase>>
 
 (* A-level acceptance of what a reader finds (C15, C01) and history preservation incl. metadata (C08) *)
 TReopen == /\ IsEvent("reopen") /\ st = "closed"
@@ -44,10 +47,17 @@ TReopen == /\ IsEvent("reopen") /\ st = "closed"
            /\ Ev.ok => /\ Len(seen) <= Len(Ev.metas)
                        /\ SubSeq(Ev.metas, 1, Len(seen)) = seen
            /\ seen' = IF Ev.ok THEN Ev.metas ELSE seen
+           \* the independent reader recovers the same members, and what it saw of earlier sessions is unchanged
+           /\ (Ev.ok /\ Ev.ref.present) => /\ Ev.ref.ok
+                                           /\ Len(Ev.ref.members) = Len(Ev.members)
+                                           /\ SubSeq(Ev.ref.members, nbase + 1, Len(Ev.members)) = SubSeq(Ev.members, nbase + 1, Len(Ev.members))
+                                           /\ Len(seenref) <= Len(Ev.ref.metas)
+                                           /\ SubSeq(Ev.ref.metas, 1, Len(seenref)) = seenref
+           /\ seenref' = IF Ev.ok /\ Ev.ref.present /\ Ev.ref.ok THEN Ev.ref.metas ELSE seenref
            \* the I-level predicts Unreadable after a half-read source; a source that failed before its first byte leaves a
            \* readable archive.  Both are allowed by the property: bind arch to what was observed.
            /\ arch' = IF Ev.ok THEN Ok(Ev.members) ELSE Unreadable
-           /\ UNCHANGED <<sess, st, good, tainted, files, subs, widx, folder, pc, call, exc, reads, ncalls, nfaults>>
+           /\ UNCHANGED <<sess, st, good, tainted, files, subs, widx, folder, pc, call, exc, reads, ncalls, nfaults, nbase>>
 
 TNext == \/ TBase \/ TOpen \/ TCall \/ TRet \/ TClose \/ TReopen
          \/ ((Check \/ Register \/ Archive) /\ Silent)
